@@ -161,6 +161,60 @@ static void fam_execute(Result& R, Rng& r) {
     progress();
 }
 
+// ---------------------------------------------------------------------------------------------- execute: the slot notification must be handed over
+// All slots reserved (no worker can ever help). E1..En occupy the slots; En waits on a task_group, i.e. it runs the arena's delegated
+// tasks. W1 calls execute(d1): full, so d1 is delegated and W1 sleeps on the exit monitor; En runs d1, which blocks. W2 calls execute(d2)
+// and sleeps behind W1. E1 leaves: its notify_one wakes W1, the oldest sleeper - but d1 finishes at that very moment (it also ends En's
+// task_group wait, En goes on with user code that waits for W2), so W1 returns without needing the slot. It must pass the notification on:
+// W2 has a free slot in front of it and nobody else will ever leave or run d2. "Asleep" is read from the sleep registry (hooks 56/57).
+static void fam_execute_handover(Result& R, Rng& r) {
+    int n = r.chance(2, 3) ? 2 : 3;
+    tbb::task_arena A(n, n); A.initialize();
+    int nw = 2 + (int)r.below(2);                 // sleepers: W1 (its functor is run by En) and W2.. (must get the slot)
+    unsigned d1_lag = r.chance(1, 2) ? 0 : (unsigned)r.below(60);
+    Json pj; pj.obj(); pj.kv("arena_all_reserved", n); pj.kv("sleepers", nw); pj.kv("d1_finishes_us_after_E1_left", (long long)d1_lag); pj.end_obj();
+    g_cur.set("execute_handover", pj.s, nw);
+    std::mutex m; std::condition_variable cv;
+    std::atomic<int> in{0}, d1_started{0}, e1_left{0}, returned{0}; bool e1_go = false, all_back = false;
+    std::atomic<HookThread*> wh[4] = {};
+    tbb::task_handle* hp = nullptr;
+    std::vector<std::thread> occ;
+    for (int e = 0; e < n - 1; e++) occ.emplace_back([&, e] {
+        A.execute([&] { in++; std::unique_lock<std::mutex> l(m); if (e == 0) cv.wait(l, [&] { return e1_go; }); else cv.wait(l, [&] { return all_back; }); });
+        if (e == 0) e1_left.store(1, std::memory_order_release);
+    });
+    occ.emplace_back([&] {
+        A.execute([&] {
+            tbb::task_group tg; tbb::task_handle h = tg.defer([] {}); hp = &h;
+            in.fetch_add(1, std::memory_order_release);
+            tg.wait();                                                    // runs delegated tasks until d1 drops the handle
+            std::unique_lock<std::mutex> l(m); cv.wait(l, [&] { return all_back; });      // user code: neither leaves nor runs tasks before every sleeper is back
+        });
+    });
+    while (in.load(std::memory_order_acquire) < n) sched_yield();
+    std::vector<std::thread> ws; std::atomic<uint64_t> slept{0};
+    auto asleep = [&](int k) { HookThread* h = wh[k].load(); return h && h->sleeping_on.load() != nullptr; };
+    for (int k = 0; k < nw; k++) {
+        ws.emplace_back([&, k] {
+            WaiterProbe w; wh[k].store(&hook_thread());
+            if (k == 0) A.execute([&] { d1_started = 1; while (!e1_left.load(std::memory_order_acquire)) { /* must react at once */ } if (d1_lag) spin_iters(d1_lag * 40); *hp = tbb::task_handle(); });
+            else A.execute([&] {});
+            slept += w.sleeps(); g_cur.done++; progress();
+            { std::lock_guard<std::mutex> l(m); if (returned.fetch_add(1) + 1 == nw) all_back = true; } cv.notify_all();
+        });
+        if (k == 0) while (!d1_started.load()) sched_yield();
+        // the next sleeper must queue up behind this one: wait until this one is registered asleep (a fact, not a delay)
+        while (!asleep(k)) { if (returned.load() > k) break; sched_yield(); }
+    }
+    { std::lock_guard<std::mutex> l(m); e1_go = true; } cv.notify_all();
+    for (auto& t : ws) t.join();
+    for (auto& t : occ) t.join();
+    R.scenarios++; if (slept.load() >= 2) { R.nontrivial++; R.stat("execute_handover.scenarios_with_two_sleepers_queued"); }
+    R.stat("execute_handover.sleeps_on_the_exit_monitor", (long long)slept.load());
+    R.signature(mix(mix(0xE8, n * 4 + nw), mix(slept.load(), d1_lag / 16)));
+    progress();
+}
+
 // ---------------------------------------------------------------------------------------------- execute: the slot is vacated by a worker
 // One worker in the whole process (limit 2). It occupies the only slot of arena X (running an enqueued task) when the caller arrives in
 // X.execute: the caller delegates and sleeps. Then an arena of higher priority takes the worker (X is recalled): the worker leaves X as
@@ -312,7 +366,7 @@ int main(int argc, char** argv) {
         R.finish_and_exit(3);
     });
     typedef void (*Fam)(Result&, Rng&);
-    std::vector<std::pair<std::string, Fam>> fams = { { "group", fam_group }, { "cbq", fam_cbq }, { "mutex", fam_mutex }, { "execute", fam_execute }, { "execute_recall", fam_execute_recall }, { "enqueue", fam_enqueue }, { "resume", fam_resume } };
+    std::vector<std::pair<std::string, Fam>> fams = { { "group", fam_group }, { "cbq", fam_cbq }, { "mutex", fam_mutex }, { "execute", fam_execute }, { "execute_recall", fam_execute_recall }, { "execute_handover", fam_execute_handover }, { "enqueue", fam_enqueue }, { "resume", fam_resume } };
     for (long k = 0; k < cases; k++) {
         Rng r(top.next());
         if (do_perturb) { if (r.chance(1, 4)) perturb().clear(); else perturb_random(r, ids); }
